@@ -379,6 +379,16 @@ func (e *c13Env) renderValidator(c *c13Cfg) (c13M, c13L) {
 			"signedHeaders": "X-S", "signature": "X-Sig", "date": "X-D", "expires": "X-E", "credential": "X-C", "contentSha256": "X-H"}}
 	case "hoist":
 		raw["signature"] = c13M{"accessKeys": c13M{"k": "s"}, "headerHoisting": c13M{"allowedPrefix": c13L{"X-"}, "disallowed": c13L{"X-A"}}}
+	case "emptySecret": // every key of the store has an empty secret
+		raw["signature"] = c13M{"accessKeys": c13M{"k": ""}}
+	case "emptyId": // the only key has an empty id
+		raw["signature"] = c13M{"accessKeys": c13M{"": "s"}}
+	case "nullSecret":
+		raw["signature"] = c13M{"accessKeys": c13M{"k": nil}}
+	case "mixedEmpty":
+		raw["signature"] = c13M{"accessKeys": c13M{"k": "s", "k2": "", "": "s3"}}
+	case "idNoSecret": // signing credential without a secret next to a key store
+		raw["signature"] = c13M{"accessKeyId": "k", "accessKeys": c13M{"k": "s"}}
 	default:
 		c13Bad(K, "sig", v)
 	}
